@@ -9,8 +9,9 @@ from ..runner import Hyp
 
 ID = "C17"
 TITLE = "Plot appearance options are honoured in the produced figure"
-RULE = ("Random subsets (1-8) and values of the documented appearance options on five kinds of figure (standard line plot, "
-        "-x no bar plot, -type map, pithist and igncontrib with several sub-axes) over three hand-built datasets, written with "
+RULE = ("Random subsets (1-8) and values of the documented appearance options on 15 kinds of figure (standard line plot, "
+        "-x no bar plot, -type map, pithist and igncontrib with several sub-axes, obsfcst, qq, freq, roc, timeseries, scatter, "
+        "marginal, spreadskill, error, cond) over three hand-built datasets, written with "
         "-f out.<png|jpg|pdf|svg|eps>. After verif.driver.run the figure is read back (titles, labels, limits, ticks and tick "
         "labels, rotations, scales, legend texts/size/location, per-line colour/style/width/marker/size with cycling, font "
         "sizes, grid colour/style/width/visibility, perfect-score line, aspect, figure size, subplot parameters, annotations) "
@@ -26,28 +27,29 @@ ASSUMPTIONS = [
     "option pairs that contradict each other by design are not combined: -nogrid with -gc/-gs/-gw, -nomargin with -left/-right/-top/-bottom, "
     "-legfs 0 with -leg/-legloc, -xlog/-ylog with non-positive limits or ticks",
     "map-only options (-clim, -clabel) are checked on maps only; cartopy backgrounds are not installed",
+    "the reliability diagram's inset histogram is the diagram's own decoration: general options are not demanded of it (the diagram is only in the styles campaign)",
 ]
 
-KINDS = ["line", "line", "bar", "map", "pithist", "igncontrib"]
+KINDS = ["line", "line", "bar", "map", "pithist", "igncontrib", "obsfcst", "qq", "freq", "roc", "timeseries", "scatter", "marginal", "spreadskill", "error", "cond"]
 SHAPES = ["full2", "full3", "full2-nomissing"]
 COLORS = {"red": [1.0, 0.0, 0.0, 1.0], "blue": [0.0, 0.0, 1.0, 1.0], "green": [0.0, 0.502, 0.0, 1.0], "k": [0.0, 0.0, 0.0, 1.0], "0.3": [0.3, 0.3, 0.3, 1.0]}
 LEGLOC = {"upper_left": 2, "lower_right": 4, "center": 10, "upper_right": 1, "lower_left": 3}
 
 # option -> (kinds it is generated for, value strategy)
 OPTIONS = {
-    "title": (["line", "bar", "map", "pithist", "igncontrib"], st.sampled_from(["My title", "Run 3 vs 4", "T"])),
-    "xlabel": (["line", "bar", "pithist", "igncontrib", "map"], st.sampled_from(["lead (h)", "X"])),
-    "ylabel": (["line", "bar", "pithist", "igncontrib", "map"], st.sampled_from(["error (K)", "Y"])),
+    "title": (["line", "bar", "map", "pithist", "igncontrib", "obsfcst", "qq", "freq", "roc", "timeseries", "scatter", "marginal", "spreadskill", "error", "cond"], st.sampled_from(["My title", "Run 3 vs 4", "T"])),
+    "xlabel": (["line", "bar", "pithist", "igncontrib", "map", "obsfcst", "qq", "freq", "roc", "timeseries", "scatter", "marginal", "spreadskill", "error", "cond"], st.sampled_from(["lead (h)", "X"])),
+    "ylabel": (["line", "bar", "pithist", "igncontrib", "map", "obsfcst", "qq", "freq", "roc", "timeseries", "scatter", "marginal", "spreadskill", "error", "cond"], st.sampled_from(["error (K)", "Y"])),
     "clabel": (["map"], st.sampled_from(["colour label", "C"])),
     "xlim": (["line", "pithist", "igncontrib"], st.sampled_from([[1.0, 30.0], [0.5, 100.0], [0.25, 0.75]])),
-    "ylim": (["line", "bar", "pithist", "igncontrib"], st.sampled_from([[0.5, 5.0], [1.0, 20.0], [0.1, 3.5]])),
+    "ylim": (["line", "bar", "pithist", "igncontrib", "obsfcst", "qq", "freq", "roc", "timeseries", "scatter", "marginal", "spreadskill", "error", "cond"], st.sampled_from([[0.5, 5.0], [1.0, 20.0], [0.1, 3.5]])),
     "clim": (["map"], st.sampled_from([[0.0, 5.0], [1.0, 2.0]])),
     "xticks": (["line", "pithist", "igncontrib"], st.sampled_from([[1.0, 12.0, 24.0], [6.0, 18.0]])),
     "xticklabels": (["line", "pithist", "igncontrib"], st.sampled_from([["a", "b", "c"], ["first", "second"]])),
-    "yticks": (["line", "bar", "pithist", "igncontrib"], st.sampled_from([[0.5, 1.0, 2.0], [1.0, 4.0]])),
-    "yticklabels": (["line", "bar", "pithist", "igncontrib"], st.sampled_from([["lo", "mid", "hi"], ["p", "q"]])),
-    "xrot": (["line", "pithist", "igncontrib"], st.sampled_from([45.0, 90.0, 30.0])),
-    "yrot": (["line", "pithist", "igncontrib"], st.sampled_from([45.0, 60.0])),
+    "yticks": (["line", "bar", "pithist", "igncontrib", "obsfcst", "qq", "freq", "roc", "timeseries", "scatter", "marginal", "spreadskill", "error", "cond"], st.sampled_from([[0.5, 1.0, 2.0], [1.0, 4.0]])),
+    "yticklabels": (["line", "bar", "pithist", "igncontrib", "obsfcst", "qq", "freq", "roc", "timeseries", "scatter", "marginal", "spreadskill", "error", "cond"], st.sampled_from([["lo", "mid", "hi"], ["p", "q"]])),
+    "xrot": (["line", "pithist", "igncontrib", "obsfcst", "qq", "freq", "roc", "timeseries", "scatter", "marginal", "spreadskill", "error", "cond"], st.sampled_from([45.0, 90.0, 30.0])),
+    "yrot": (["line", "pithist", "igncontrib", "obsfcst", "qq", "freq", "roc", "timeseries", "scatter", "marginal", "spreadskill", "error", "cond"], st.sampled_from([45.0, 60.0])),
     "xlog": (["line"], st.just(True)),
     "ylog": (["line"], st.just(True)),
     "leg": (["line", "igncontrib"], st.sampled_from([["A", "B_c", "D"], ["new_run", "old", "x"]])),
@@ -58,22 +60,22 @@ OPTIONS = {
     "lw": (["line", "igncontrib"], st.sampled_from([[1.0, 3.0], [0.5], [4.0, 2.0, 1.0]])),
     "ma": (["line", "igncontrib"], st.sampled_from([["x", "s"], ["^"], ["o", "*", "."]])),
     "ms": (["line", "igncontrib"], st.sampled_from([[4, 9], [12], [3, 5, 7]])),
-    "labfs": (["line", "bar", "pithist", "igncontrib"], st.sampled_from([9.0, 21.0])),
-    "tickfs": (["line", "pithist", "igncontrib"], st.sampled_from([7.0, 19.0])),
-    "titlefs": (["line", "pithist", "igncontrib", "map"], st.sampled_from([9.0, 23.0])),
-    "gc": (["line", "pithist", "igncontrib"], st.sampled_from(["red", "blue"])),
-    "gs": (["line", "pithist", "igncontrib"], st.sampled_from([":", "--"])),
-    "gw": (["line", "pithist", "igncontrib"], st.sampled_from([2.0, 0.5])),
-    "nogrid": (["line", "pithist", "igncontrib", "bar"], st.just(True)),
+    "labfs": (["line", "bar", "pithist", "igncontrib", "obsfcst", "qq", "freq", "roc", "timeseries", "scatter", "marginal", "spreadskill", "error", "cond"], st.sampled_from([9.0, 21.0])),
+    "tickfs": (["line", "pithist", "igncontrib", "obsfcst", "qq", "freq", "roc", "timeseries", "scatter", "marginal", "spreadskill", "error", "cond"], st.sampled_from([7.0, 19.0])),
+    "titlefs": (["line", "pithist", "igncontrib", "map", "obsfcst", "qq", "freq", "roc", "timeseries", "scatter", "marginal", "spreadskill", "error", "cond"], st.sampled_from([9.0, 23.0])),
+    "gc": (["line", "pithist", "igncontrib", "obsfcst", "qq", "freq", "roc", "timeseries", "scatter", "marginal", "spreadskill", "error", "cond"], st.sampled_from(["red", "blue"])),
+    "gs": (["line", "pithist", "igncontrib", "obsfcst", "qq", "freq", "roc", "timeseries", "scatter", "marginal", "spreadskill", "error", "cond"], st.sampled_from([":", "--"])),
+    "gw": (["line", "pithist", "igncontrib", "obsfcst", "qq", "freq", "roc", "timeseries", "scatter", "marginal", "spreadskill", "error", "cond"], st.sampled_from([2.0, 0.5])),
+    "nogrid": (["line", "pithist", "igncontrib", "bar", "obsfcst", "qq", "freq", "roc", "timeseries", "scatter", "marginal", "spreadskill", "error", "cond"], st.just(True)),
     "sp": (["line"], st.just(True)),
     "aspect": (["line", "pithist"], st.sampled_from([2.0, 0.5])),
-    "fs": (["line", "bar", "map", "pithist", "igncontrib"], st.sampled_from([[7, 5], [4, 9], [6.5, 4]])),
-    "dpi": (["line", "bar", "map", "pithist", "igncontrib"], st.sampled_from([50, 80])),
-    "left": (["line", "bar", "pithist", "igncontrib"], st.sampled_from([0.2, 0.3])),
-    "right": (["line", "bar", "pithist", "igncontrib"], st.sampled_from([0.8, 0.9])),
-    "top": (["line", "bar", "pithist", "igncontrib"], st.sampled_from([0.85, 0.7])),
-    "bottom": (["line", "bar", "pithist", "igncontrib"], st.sampled_from([0.25, 0.3])),
-    "nomargin": (["line", "bar", "pithist"], st.just(True)),
+    "fs": (["line", "bar", "map", "pithist", "igncontrib", "obsfcst", "qq", "freq", "roc", "timeseries", "scatter", "marginal", "spreadskill", "error", "cond"], st.sampled_from([[7, 5], [4, 9], [6.5, 4]])),
+    "dpi": (["line", "bar", "map", "pithist", "igncontrib", "obsfcst", "qq", "freq", "roc", "timeseries", "scatter", "marginal", "spreadskill", "error", "cond"], st.sampled_from([50, 80])),
+    "left": (["line", "bar", "pithist", "igncontrib", "obsfcst", "qq", "freq", "roc", "timeseries", "scatter", "marginal", "spreadskill", "error", "cond"], st.sampled_from([0.2, 0.3])),
+    "right": (["line", "bar", "pithist", "igncontrib", "obsfcst", "qq", "freq", "roc", "timeseries", "scatter", "marginal", "spreadskill", "error", "cond"], st.sampled_from([0.8, 0.9])),
+    "top": (["line", "bar", "pithist", "igncontrib", "obsfcst", "qq", "freq", "roc", "timeseries", "scatter", "marginal", "spreadskill", "error", "cond"], st.sampled_from([0.85, 0.7])),
+    "bottom": (["line", "bar", "pithist", "igncontrib", "obsfcst", "qq", "freq", "roc", "timeseries", "scatter", "marginal", "spreadskill", "error", "cond"], st.sampled_from([0.25, 0.3])),
+    "nomargin": (["line", "bar", "pithist", "obsfcst", "qq", "freq", "roc", "timeseries", "scatter", "marginal", "spreadskill", "error", "cond"], st.just(True)),
     "a": (["line"], st.just(True)),
     "afs": (["line"], st.sampled_from([5.0, 15.0])),
 }
@@ -176,7 +178,10 @@ def check_figure(case, ctx):
     if os.path.exists(out):
         os.remove(out)
     base = {"line": ["-m", "mae", "-x", "leadtime"], "bar": ["-m", "mae", "-x", "no"], "map": ["-m", "mae", "-type", "map"],
-            "pithist": ["-m", "pithist"], "igncontrib": ["-m", "igncontrib", "-r", "1"]}[kind]
+            "pithist": ["-m", "pithist"], "igncontrib": ["-m", "igncontrib", "-r", "1"],
+            "obsfcst": ["-m", "obsfcst"], "qq": ["-m", "qq"], "freq": ["-m", "freq", "-r", "0,1,2"], "roc": ["-m", "roc", "-r", "1"],
+            "timeseries": ["-m", "timeseries"], "scatter": ["-m", "scatter"], "marginal": ["-m", "marginal", "-r", "0,1,2"],
+            "spreadskill": ["-m", "spreadskill"], "error": ["-m", "error"], "cond": ["-m", "cond", "-r", "0,1,2"]}[kind]
     if "leg" in opts:
         opts = dict(opts, leg=list(opts["leg"])[:n_in])
     args = list(paths) + base + render(opts) + ["-f", out]
